@@ -29,8 +29,8 @@ WALKERS = [
     ("get_csr_json", "region_origin"),
     ("_generate_csr_region_definitions_c", "origin"),
     ("_generate_csr_region_access_functions_c", "origin"),
-    ("_generate_csr_fields_access_functions_c", "origin"),
 ]
+# (_generate_csr_fields_access_functions_c also advances an `origin`, but publishes nothing from it: not a walker of this rule)
 
 
 def _loop_paths(loop):
@@ -75,9 +75,186 @@ def _e8(ctx):
                          f"published region need not be the lowest, get_csr_header subtracts its origin from every address", fin)
 
 
+def _exporters_by_value(ctx, ex):
+    """get_csr_json, get_csr_csv and get_csr_header (with the region-definition and accessor generators it calls) interpreted
+    exactly (lxs/pyconst.py) on a model SoC description -- two CSR regions, registers of 1..64 bits, bus words of 8 and 32 bits,
+    alignment 32 and 64 -- and the *published text* read back: every register's address in the JSON / CSV / `#define CSR_*_ADDR` /
+    accessor bodies must be  region origin + alignment//8 * (bus words of the registers before it), and the generated multi-word
+    accessors, executed on a model memory, must compose / split the register most-significant word first at those addresses.
+    Returns the names of the generator functions decided this way (they need no shape rule)."""
+    import json as _json
+    import re as _re
+    from .. import pyconst
+    from ..pyconst import NS, Native
+    funcs = {f.name: f for f in ex.tree.body if isinstance(f, ast.FunctionDef)}
+    classes = {c.name: c for c in ex.tree.body if isinstance(c, ast.ClassDef)}
+    need = ("get_csr_json", "get_csr_csv", "get_csr_header", "_generate_csr_region_definitions_c", "_generate_csr_region_access_functions_c")
+    if any(n not in funcs for n in need):
+        return set()
+    consts = dict(pyconst.module_consts(ex.tree))
+    consts["json"] = NS(dumps=Native(lambda d, indent=None, **k: _json.dumps(d)), loads=Native(lambda t: _json.loads(t)))
+    consts["generated_banner"] = Native(lambda *a, **k: "")
+    consts["generated_separator"] = Native(lambda *a, **k: "")
+    SIZES = {"uart": [1, 8, 9, 32, 33, 64, 17], "timer": [32, 1, 40]}
+    ORIG = {"uart": 0xf0001000, "timer": 0xf0001800}
+
+    def model(busword):
+        out = {}
+        for rn, sizes in SIZES.items():
+            regs = []
+            for i, sz in enumerate(sizes):
+                # every element of region.obj occupies its words, whatever its class: statuses at odd positions, one plain CSR and one
+                # object of another class among the others
+                o = NS(__cls__=("CSRStatus",) if i % 2 else (("CSRStorage",), ("CSR",), ("CSRConstant",), ("CSRStorage",))[(i // 2) % 4], name=f"r{i}", size=sz)
+                if i % 2:
+                    o["read_only"] = True
+                regs.append(o)
+            out[rn] = NS(__cls__=("CSRRegion",), origin=ORIG[rn], busword=busword, obj=regs)
+        return out
+
+    def expected(busword, alignment):
+        exp = {}
+        for rn, sizes in SIZES.items():
+            a = ORIG[rn]
+            for i, sz in enumerate(sizes):
+                nw = (sz + busword - 1) // busword
+                exp[f"{rn}_r{i}"] = (a, nw)
+                a += alignment // 8 * nw
+        return exp
+
+    def addr_of(txt, base):
+        m_ = _re.fullmatch(r"\(CSR_BASE \+ (0x[0-9a-fA-F]+)L\)", txt.strip())
+        if m_:
+            return base + int(m_.group(1), 16)
+        m_ = _re.fullmatch(r"(0x[0-9a-fA-F]+)L", txt.strip())
+        return int(m_.group(1), 16) if m_ else None
+    bad = {"json": None, "csv": None, "defs": None, "acc": None}
+    n_ev = 0
+    try:
+        for busword in (8, 32):
+            for alignment in (32, 64):
+                exp = expected(busword, alignment)
+                what = f"bus word {busword}, alignment {alignment}"
+                cst = {"CONFIG_CSR_ALIGNMENT": alignment, "CONFIG_CSR_DATA_WIDTH": busword}
+                r = pyconst.call(funcs["get_csr_json"], {"csr_regions": model(busword), "constants": cst, "mem_regions": {}}, consts=consts, funcs=funcs, classes=classes)
+                n_ev += 1
+                d = _json.loads(r[1]) if r[0] == "return" and isinstance(r[1], str) else {}
+                regs = d.get("csr_registers", {})
+                for k, (a, nw) in exp.items():
+                    g = regs.get(k, {})
+                    if (g.get("addr") != a or g.get("size") != nw) and bad["json"] is None:
+                        bad["json"] = f"{what}: JSON publishes {k} at {g.get('addr') if not isinstance(g.get('addr'), int) else hex(g.get('addr'))} x{g.get('size')}, the hardware places it at {a:#x} x{nw}"
+                if d.get("csr_bases") != ORIG and bad["json"] is None:
+                    bad["json"] = f"{what}: csr_bases = {d.get('csr_bases')}"
+                r = pyconst.call(funcs["get_csr_csv"], {"csr_regions": model(busword), "constants": cst, "mem_regions": {}}, consts=consts, funcs=funcs, classes=classes)
+                n_ev += 1
+                rows = {ln.split(",")[1]: ln.split(",") for ln in (r[1] if r[0] == "return" and isinstance(r[1], str) else "").splitlines() if ln.startswith("csr_register,")}
+                for k, (a, nw) in exp.items():
+                    row = rows.get(k)
+                    if (row is None or len(row) < 4 or int(row[2], 16) != a or int(row[3]) != nw) and bad["csv"] is None:
+                        bad["csv"] = f"{what}: CSV row for {k} is {row}, expected address {a:#x}, {nw} word(s)"
+                for base_arg in (None, ORIG["uart"]):
+                    for with_define in (True, False):
+                        r = pyconst.call(funcs["get_csr_header"], {"regions": model(busword), "constants": cst, "csr_base": base_arg, "with_csr_base_define": with_define,
+                                                                   "with_access_functions": True, "with_fields_access_functions": False},
+                                         consts=consts, funcs=funcs, classes=classes)
+                        n_ev += 1
+                        txt = r[1] if r[0] == "return" and isinstance(r[1], str) else ""
+                        base = ORIG["uart"]
+                        defs = {m_.group(1).lower(): addr_of(m_.group(2), base) for m_ in _re.finditer(r"#define CSR_(\w+)_ADDR (.*)", txt)}
+                        for k, (a, nw) in exp.items():
+                            if defs.get(k) != a and bad["defs"] is None:
+                                g = defs.get(k)
+                                bad["defs"] = f"{what}, csr_base={'first region' if base_arg is None else hex(base_arg)}, base define {with_define}: CSR_{k.upper()}_ADDR = " \
+                                              f"{hex(g) if isinstance(g, int) else g}, the hardware places the register at {a:#x}"
+                        # accessors: execute the generated bodies on a model memory
+                        for k, (a, nw) in exp.items():
+                            size_bytes = nw * busword // 8
+                            m_r = _re.search(r"static inline (\w+) %s_read\(void\) \{\n(.*?)\n\}" % k, txt, _re.S)
+                            if size_bytes > 8:
+                                if m_r is not None and bad["acc"] is None:
+                                    bad["acc"] = f"{what}: an accessor is generated for the {size_bytes}-byte register {k}"
+                                continue
+                            stride = alignment // 8
+                            addrs = [a + sub * stride for sub in range(nw)]
+                            mem = {ad: (0x11 * (j + 1)) & (2**busword - 1) for j, ad in enumerate(addrs)}
+                            want = 0
+                            for ad in addrs:
+                                want = (want << busword) | mem[ad]
+                            got = None
+                            if m_r is not None:
+                                acc = None
+                                okp = True
+                                for ln in m_r.group(2).splitlines():
+                                    ln = ln.strip()
+                                    m1 = _re.fullmatch(r"(?:\w+ r = |r \|= |return )csr_read_simple\((.*)\);", ln)
+                                    if m1:
+                                        ad = addr_of(m1.group(1), base)
+                                        v = mem.get(ad)
+                                        if v is None:
+                                            okp = False
+                                            break
+                                        if ln.startswith("return"):
+                                            got = v
+                                        elif "|=" in ln:
+                                            acc |= v
+                                        else:
+                                            acc = v
+                                        continue
+                                    m2 = _re.fullmatch(r"r <<= (\d+);", ln)
+                                    if m2:
+                                        acc <<= int(m2.group(1))
+                                        continue
+                                    if ln == "return r;":
+                                        got = acc
+                                        continue
+                                    okp = False
+                                    break
+                                if not okp:
+                                    got = None
+                            if got != want and bad["acc"] is None:
+                                bad["acc"] = f"{what}: {k}_read() returns {hex(got) if isinstance(got, int) else 'something the reader cannot follow'} on a memory holding " \
+                                             f"{[(hex(x), hex(y)) for x, y in mem.items()]}, expected {want:#x} (most significant word at the lowest address)"
+                            m_w = _re.search(r"static inline void %s_write\((\w+) v\) \{\n(.*?)\n\}" % k, txt, _re.S)
+                            ro = k.split("_r")[1].isdigit() and int(k.split("_r")[1]) % 2 == 1
+                            if ro:
+                                if m_w is not None and bad["acc"] is None:
+                                    bad["acc"] = f"{what}: a write accessor is generated for the read-only register {k}"
+                                continue
+                            v = 0
+                            for j in range(nw):
+                                v = (v << busword) | ((0xa1 + j) & (2**busword - 1))
+                            wrote = {}
+                            okp = m_w is not None
+                            for ln in (m_w.group(2).splitlines() if m_w else []):
+                                m1 = _re.fullmatch(r"csr_write_simple\(v(?: >> (\d+))?, (.*)\);", ln.strip())
+                                if not m1:
+                                    okp = False
+                                    break
+                                wrote[addr_of(m1.group(2), base)] = (v >> int(m1.group(1) or 0)) & (2**busword - 1)
+                            wantw = {ad: (v >> ((nw - 1 - j) * busword)) & (2**busword - 1) for j, ad in enumerate(addrs)}
+                            if (not okp or wrote != wantw) and bad["acc"] is None:
+                                bad["acc"] = f"{what}: {k}_write({v:#x}) stores { {hex(x) if isinstance(x, int) else x: hex(y) for x, y in wrote.items()} }, expected " \
+                                             f"{ {hex(x): hex(y) for x, y in wantw.items()} }"
+    except pyconst.Unknowable as ex_:
+        # the generators are written in a way the interpreter does not follow: the shape rules stay in charge
+        ctx.analysed["paths"] += n_ev
+        return set()
+    ctx.analysed["paths"] += n_ev
+    fj = funcs["get_csr_json"]
+    ctx.ob("E1", EXP, "get_csr_json", "published text: every register at region origin + alignment//8 * words before it (JSON)", bad["json"] is None, bad["json"] or "", fj)
+    ctx.ob("E1", EXP, "get_csr_csv", "published text: every register at region origin + alignment//8 * words before it (CSV)", bad["csv"] is None, bad["csv"] or "", funcs["get_csr_csv"])
+    ctx.ob("E1", EXP, "get_csr_header", "published text: every CSR_*_ADDR at region origin + alignment//8 * words before it (C header, 4 base settings)",
+           bad["defs"] is None, bad["defs"] or "", funcs["get_csr_header"])
+    ctx.ob("E5", EXP, "get_csr_header", "published text: generated accessors executed on a model memory read / write the register MSW first at its words",
+           bad["acc"] is None, bad["acc"] or "", funcs["get_csr_header"])
+    ctx.ob("E1", EXP, "<exporters>", "interpreted generator runs:present", n_ev >= 24, f"{n_ev} runs", 0)
+    return {"get_csr_json", "get_csr_header", "_generate_csr_region_definitions_c", "_generate_csr_region_access_functions_c"}
+
+
 def run(ctx):
     ctx.rule("E1", "every CSR-region walker iterates region.obj unfiltered and advances the running address exactly once per "
-                   "register by alignment//8 * ceil(size/busword), after having used it", min_sites=16)
+                   "register by alignment//8 * ceil(size/busword), after having used it (decided on the published text where the generators can be interpreted)", min_sites=8)
     ctx.rule("E2", "one bytes-per-CSR-word factor: bus window 2**(aw+2), location count alignment//8*2**aw//paging, bank "
                    "decode paging//4, region origin csr_base + paging*page (banks and memories), exporters alignment//8",
              min_sites=8)
@@ -100,7 +277,10 @@ def run(ctx):
     ex = ctx.mod(EXP)
     # ============================================================ E1
     forms = {}
+    decided = _exporters_by_value(ctx, ex)
     for fname, var in WALKERS:
+        if fname in decided:
+            continue            # decided on the published text itself (below): no shape rule on the loop
         fn = ex.func(fname)
         ctx.analysed["functions"].add(f"{EXP}::{fname}")
         loops = [n for n in walk_no_nested(fn) if isinstance(n, ast.For) and norm(n.iter) == "region.obj" and
@@ -153,19 +333,21 @@ def run(ctx):
         # no filter: the loop body has no `continue` and the advance is not under an `if`
         conts = [n for n in ast.walk(lp) if isinstance(n, ast.Continue)]
         ctx.ob("E1", EXP, fname, "no register skipped", not conts, "" if not conts else "a `continue` skips the address advance", lp)
-    ok = len(set(forms.values())) == 1 and len(forms) == len(WALKERS)
+    ok = len(set(forms.values())) <= 1 and len(forms) == len([w for w in WALKERS if w[0] not in decided])
     ctx.ob("E1", EXP, "<walkers>", "all walkers use one stride form", ok, "" if ok else f"stride forms differ: {forms}")
     # initial value of the running address
     fj = ex.func("get_csr_json")
-    ok = any(isinstance(n, ast.Assign) and norm(n.targets[0]) == "region_origin" and norm(n.value) == "region.origin" for n in ast.walk(fj))
-    ctx.ob("E1", EXP, "get_csr_json", "running address starts at region.origin", ok, "" if ok else "region_origin is not initialised from region.origin", fj)
-    ok = any(isinstance(n, ast.Assign) and isinstance(n.targets[0], ast.Subscript) and norm(n.targets[0]) == "d['csr_bases'][name]" and
-             norm(n.value) == "region.origin" for n in ast.walk(fj))
-    ctx.ob("E1", EXP, "get_csr_json", "csr_bases[name] = region.origin", ok, "" if ok else "csr base is not region.origin", fj)
+    if "get_csr_json" not in decided:
+        ok = any(isinstance(n, ast.Assign) and norm(n.targets[0]) == "region_origin" and norm(n.value) == "region.origin" for n in ast.walk(fj))
+        ctx.ob("E1", EXP, "get_csr_json", "running address starts at region.origin", ok, "" if ok else "region_origin is not initialised from region.origin", fj)
+        ok = any(isinstance(n, ast.Assign) and isinstance(n.targets[0], ast.Subscript) and norm(n.targets[0]) == "d['csr_bases'][name]" and
+                 norm(n.value) == "region.origin" for n in ast.walk(fj))
+        ctx.ob("E1", EXP, "get_csr_json", "csr_bases[name] = region.origin", ok, "" if ok else "csr base is not region.origin", fj)
     fh = ex.func("get_csr_header")
-    offs = [norm(n.value) for n in ast.walk(fh) if isinstance(n, ast.Assign) and norm(n.targets[0]) == "origin"]
-    ok = len(offs) == 3 and set(offs) == {"region.origin - _csr_base"}
-    ctx.ob("E1", EXP, "get_csr_header", "every section starts each region at region.origin - csr base", ok, "" if ok else f"{offs}", fh)
+    if "get_csr_header" not in decided:
+        offs = [norm(n.value) for n in ast.walk(fh) if isinstance(n, ast.Assign) and norm(n.targets[0]) == "origin"]
+        ok = len(offs) == 3 and set(offs) == {"region.origin - _csr_base"}
+        ctx.ob("E1", EXP, "get_csr_header", "every section starts each region at region.origin - csr base", ok, "" if ok else f"{offs}", fh)
     # doc/csr.py (feeds SVD): one word = 4 bytes, accepted because supported_alignment == [32]
     soc = ctx.mod(SOC)
     sa = None
